@@ -194,3 +194,204 @@ Theorem C06Z_crossing_frame_refused_before_payload :
        pending (br s') = wire_payload f ++ rest /\ rem s' = plen f).
 Proof. exact data_frame_step_limitZ. Qed.
 Print Assumptions C06Z_crossing_frame_refused_before_payload.
+
+(* ============================================================================================ *)
+(* Whole runs under a read limit.  Proofs are in Proofs/LimitRunP.v.                            *)
+(* The data messages of a conformant stream [fs] are [ms1 ++ m :: ms2] (type, compressed, wire  *)
+(* payload); every message of [ms1] has wire payload total <= L, [m] is the first with total    *)
+(* > L.  [length ms1 + 1 + n] ReadMessage calls (n < 999: the 1000th failing call panics by     *)
+(* design) return the messages of [ms1], then ErrReadLimit with the part [d'] of [m] collected  *)
+(* before the frame [fj] whose declared length takes the running total over L (type 0 and       *)
+(* nothing when [fj] is the first frame of [m]: NextReader itself fails), then (0, nil,         *)
+(* ErrReadLimit) n times.  [seen] = the frames before [fj]: the complete messages among them    *)
+(* are exactly [ms1]; the write-back log is the pongs for the pings of [seen] followed by ONE   *)
+(* close 1009; only the header of [fj] has been consumed (the pending bytes start with its      *)
+(* payload); the error is permanent, so nothing of [ms2] is ever delivered.  No hypothesis on   *)
+(* what follows the frames on the transport, nor on the transport's fault.                      *)
+(* ============================================================================================ *)
+Require Import WS.Proofs.ReaderP WS.Proofs.ReaderFlateP WS.Proofs.LimitRunP.
+
+Theorem C06_run_over_limit :
+  forall inflate c b fs extra L ms1 m ms2 n,
+    custom_handlers c = false -> binv b -> (125 <= bsize b)%nat ->
+    conformant_frames c fs -> pending b = encode_frames fs ++ extra ->
+    0 < L -> data_msgs (events_of fs) = ms1 ++ m :: ms2 ->
+    Forall (fun x => blen (snd x) <= L) ms1 -> L < blen (snd m) -> (n < 999)%nat ->
+    exists seen fj rj d' y s',
+      fs = seen ++ fj :: rj /\ is_control (opcode fj) = false /\
+      data_msgs (events_of seen) = ms1 /\
+      snd m = d' ++ payload fj ++ y /\ blen d' <= L /\ L < blen d' + plen fj /\
+      (is_data_op (opcode fj) = true -> d' = []) /\
+      run_ops inflate c (init_rst b <| rlimit := L |>) (repeat OReadMessage (length ms1 + 1 + n)) =
+        (map out_of ms1 ++
+         [RMsg (if is_data_op (opcode fj) then 0 else fst (fst m)) d' (Some RReadLimit)] ++
+         repeat (RMsg 0 [] (Some RReadLimit)) n, s') /\
+      wlog s' = map WPong (pings_of seen) ++ [WCloseTooBig] /\
+      pending (br s') = wire_payload fj ++ encode_frames rj ++ extra /\
+      rerror s' = Some RReadLimit /\ closesent s' = true /\ outoffuel s' = false /\
+      (forall ops, exists rs s'', run_ops inflate c s' ops = (rs, s'') /\
+                                  frozen s' s'' /\ Forall is_failure rs).
+Proof. exact read_messages_over_limit. Qed.
+Print Assumptions C06_run_over_limit.
+
+(* the same, the limit being set by SetReadLimit before the first read *)
+Theorem C06_run_over_limit_set :
+  forall inflate c b fs extra L ms1 m ms2 n,
+    custom_handlers c = false -> binv b -> (125 <= bsize b)%nat ->
+    conformant_frames c fs -> pending b = encode_frames fs ++ extra ->
+    0 < L -> data_msgs (events_of fs) = ms1 ++ m :: ms2 ->
+    Forall (fun x => blen (snd x) <= L) ms1 -> L < blen (snd m) -> (n < 999)%nat ->
+    exists seen fj rj d' y s',
+      fs = seen ++ fj :: rj /\ is_control (opcode fj) = false /\
+      data_msgs (events_of seen) = ms1 /\
+      snd m = d' ++ payload fj ++ y /\ blen d' <= L /\ L < blen d' + plen fj /\
+      (is_data_op (opcode fj) = true -> d' = []) /\
+      run_ops inflate c (init_rst b) (OSetLimit L :: repeat OReadMessage (length ms1 + 1 + n)) =
+        (RUnit :: map out_of ms1 ++
+         [RMsg (if is_data_op (opcode fj) then 0 else fst (fst m)) d' (Some RReadLimit)] ++
+         repeat (RMsg 0 [] (Some RReadLimit)) n, s') /\
+      wlog s' = map WPong (pings_of seen) ++ [WCloseTooBig] /\
+      pending (br s') = wire_payload fj ++ encode_frames rj ++ extra /\
+      rerror s' = Some RReadLimit /\ closesent s' = true /\ outoffuel s' = false /\
+      (forall ops, exists rs s'', run_ops inflate c s' ops = (rs, s'') /\
+                                  frozen s' s'' /\ Forall is_failure rs).
+Proof. exact read_messages_over_limit_set. Qed.
+Print Assumptions C06_run_over_limit_set.
+
+(* streams that may carry permessage-deflate messages, any [inflate]: the limit counts WIRE
+   payload bytes; a compressed [m] delivers nothing, and nothing of it reaches the flate reader *)
+Theorem C06Z_run_over_limit :
+  forall inflate c b fs extra L ms1 m ms2 n,
+    custom_handlers c = false -> binv b -> (125 <= bsize b)%nat ->
+    conformant_framesZ c fs -> pending b = encode_frames fs ++ extra ->
+    0 < L -> data_msgs (events_of fs) = ms1 ++ m :: ms2 ->
+    Forall (fun x => blen (snd x) <= L) ms1 -> L < blen (snd m) -> (n < 999)%nat ->
+    exists seen fj rj d' y s',
+      fs = seen ++ fj :: rj /\ is_control (opcode fj) = false /\
+      data_msgs (events_of seen) = ms1 /\
+      snd m = d' ++ payload fj ++ y /\ blen d' <= L /\ L < blen d' + plen fj /\
+      (is_data_op (opcode fj) = true -> d' = []) /\
+      run_ops inflate c (init_rst b <| rlimit := L |>) (repeat OReadMessage (length ms1 + 1 + n)) =
+        (map (out_ofZ inflate) ms1 ++
+         [RMsg (if is_data_op (opcode fj) then 0 else fst (fst m)) (if snd (fst m) then [] else d')
+               (Some RReadLimit)] ++
+         repeat (RMsg 0 [] (Some RReadLimit)) n, s') /\
+      wlog s' = map WPong (pings_of seen) ++ [WCloseTooBig] /\
+      pending (br s') = wire_payload fj ++ encode_frames rj ++ extra /\
+      rerror s' = Some RReadLimit /\ closesent s' = true /\ outoffuel s' = false /\
+      (forall ops, exists rs s'', run_ops inflate c s' ops = (rs, s'') /\
+                                  frozen s' s'' /\ Forall is_failure rs).
+Proof. exact read_messages_over_limitZ. Qed.
+Print Assumptions C06Z_run_over_limit.
+
+Theorem C06Z_run_over_limit_set :
+  forall inflate c b fs extra L ms1 m ms2 n,
+    custom_handlers c = false -> binv b -> (125 <= bsize b)%nat ->
+    conformant_framesZ c fs -> pending b = encode_frames fs ++ extra ->
+    0 < L -> data_msgs (events_of fs) = ms1 ++ m :: ms2 ->
+    Forall (fun x => blen (snd x) <= L) ms1 -> L < blen (snd m) -> (n < 999)%nat ->
+    exists seen fj rj d' y s',
+      fs = seen ++ fj :: rj /\ is_control (opcode fj) = false /\
+      data_msgs (events_of seen) = ms1 /\
+      snd m = d' ++ payload fj ++ y /\ blen d' <= L /\ L < blen d' + plen fj /\
+      (is_data_op (opcode fj) = true -> d' = []) /\
+      run_ops inflate c (init_rst b) (OSetLimit L :: repeat OReadMessage (length ms1 + 1 + n)) =
+        (RUnit :: map (out_ofZ inflate) ms1 ++
+         [RMsg (if is_data_op (opcode fj) then 0 else fst (fst m)) (if snd (fst m) then [] else d')
+               (Some RReadLimit)] ++
+         repeat (RMsg 0 [] (Some RReadLimit)) n, s') /\
+      wlog s' = map WPong (pings_of seen) ++ [WCloseTooBig] /\
+      pending (br s') = wire_payload fj ++ encode_frames rj ++ extra /\
+      rerror s' = Some RReadLimit /\ closesent s' = true /\ outoffuel s' = false /\
+      (forall ops, exists rs s'', run_ops inflate c s' ops = (rs, s'') /\
+                                  frozen s' s'' /\ Forall is_failure rs).
+Proof. exact read_messages_over_limitZ_set. Qed.
+Print Assumptions C06Z_run_over_limit_set.
+
+(* every message within the limit (or no limit): the limit is invisible -- the hypotheses and the
+   conclusions are those of ReaderP.read_messages_conformant / ReaderFlateP.read_messages_generalZ *)
+Theorem C06_run_within_limit :
+  forall inflate c b fs extra L,
+    custom_handlers c = false -> binv b -> (125 <= bsize b)%nat ->
+    conformant_frames c fs -> pending b = encode_frames fs ++ extra -> extra <> [] ->
+    let ms := data_msgs (events_of fs) in
+    Forall (fun x => L = 0 \/ blen (snd x) <= L) ms ->
+    exists s',
+      run_ops inflate c (init_rst b <| rlimit := L |>) (repeat OReadMessage (length ms))
+        = (map out_of ms, s') /\
+      outoffuel s' = false /\ rerror s' = None /\ closesent s' = false /\
+      rem s' = 0 /\ rfin s' = true /\
+      wlog s' = map WPong (pings_of (body fs)) /\
+      pending (br s') = encode_frames (trailer fs) ++ extra.
+Proof. exact read_messages_within_limit. Qed.
+Print Assumptions C06_run_within_limit.
+
+Theorem C06Z_run_within_limit :
+  forall inflate c b fs extra L,
+    custom_handlers c = false -> binv b -> (125 <= bsize b)%nat ->
+    conformant_framesZ c fs -> pending b = encode_frames fs ++ extra ->
+    (trailer fs = [] -> extra = [] -> fault (src b) = EEOF) ->
+    let ms := data_msgs (events_of fs) in
+    Forall (fun x => L = 0 \/ blen (snd x) <= L) ms ->
+    exists s',
+      run_ops inflate c (init_rst b <| rlimit := L |>) (repeat OReadMessage (length ms))
+        = (map (out_ofZ inflate) ms, s') /\
+      outoffuel s' = false /\ closesent s' = false /\ rem s' = 0 /\ rfin s' = true /\
+      wlog s' = map WPong (pings_of (body fs)) /\
+      pending (br s') = encode_frames (trailer fs) ++ extra /\
+      binv (br s') /\
+      (rerror s' = None \/ (rerror s' = Some RIoEOF /\ trailer fs = [] /\ extra = [])).
+Proof. exact read_messages_within_limitZ. Qed.
+Print Assumptions C06Z_run_within_limit.
+
+(* Any history: [hist] is any sequence of NextReader / Read (m > 0) / Read on a stale reader /
+   ReadMessage calls containing exactly [length ms1] NextReader + ReadMessage calls -- every
+   message of [ms1] is read by ReadMessage, or opened by NextReader and read in part, in full,
+   beyond its end or not at all.  The ReadMessage that follows reaches [m] and fails exactly as
+   above: same frame [fj], same bytes [d'], same write-back log, same pending bytes. *)
+Theorem C06Z_run_over_limit_any_history :
+  forall inflate c b fs extra L ms1 m ms2 hist,
+    custom_handlers c = false -> binv b -> (125 <= bsize b)%nat ->
+    conformant_framesZ c fs -> pending b = encode_frames fs ++ extra ->
+    0 < L -> data_msgs (events_of fs) = ms1 ++ m :: ms2 ->
+    Forall (fun x => blen (snd x) <= L) ms1 -> L < blen (snd m) ->
+    Forall hist_op hist -> list_sum (map starts hist) = length ms1 ->
+    exists outs seen fj rj d' y s',
+      fs = seen ++ fj :: rj /\ is_control (opcode fj) = false /\
+      data_msgs (events_of seen) = ms1 /\
+      snd m = d' ++ payload fj ++ y /\ blen d' <= L /\ L < blen d' + plen fj /\
+      (is_data_op (opcode fj) = true -> d' = []) /\
+      run_ops inflate c (init_rst b <| rlimit := L |>) (hist ++ [OReadMessage]) =
+        (outs ++ [RMsg (if is_data_op (opcode fj) then 0 else fst (fst m))
+                       (if snd (fst m) then [] else d') (Some RReadLimit)], s') /\
+      length outs = length hist /\ ~ In RPanic outs /\
+      wlog s' = map WPong (pings_of seen) ++ [WCloseTooBig] /\
+      pending (br s') = wire_payload fj ++ encode_frames rj ++ extra /\
+      rerror s' = Some RReadLimit /\ closesent s' = true /\ outoffuel s' = false /\
+      (forall ops, exists rs s'', run_ops inflate c s' ops = (rs, s'') /\
+                                  frozen s' s'' /\ Forall is_failure rs).
+Proof. exact read_messages_over_limitZ_any_history. Qed.
+Print Assumptions C06Z_run_over_limit_any_history.
+
+Theorem C06_run_over_limit_any_history :
+  forall inflate c b fs extra L ms1 m ms2 hist,
+    custom_handlers c = false -> binv b -> (125 <= bsize b)%nat ->
+    conformant_frames c fs -> pending b = encode_frames fs ++ extra ->
+    0 < L -> data_msgs (events_of fs) = ms1 ++ m :: ms2 ->
+    Forall (fun x => blen (snd x) <= L) ms1 -> L < blen (snd m) ->
+    Forall hist_op hist -> list_sum (map starts hist) = length ms1 ->
+    exists outs seen fj rj d' y s',
+      fs = seen ++ fj :: rj /\ is_control (opcode fj) = false /\
+      data_msgs (events_of seen) = ms1 /\
+      snd m = d' ++ payload fj ++ y /\ blen d' <= L /\ L < blen d' + plen fj /\
+      (is_data_op (opcode fj) = true -> d' = []) /\
+      run_ops inflate c (init_rst b <| rlimit := L |>) (hist ++ [OReadMessage]) =
+        (outs ++ [RMsg (if is_data_op (opcode fj) then 0 else fst (fst m)) d' (Some RReadLimit)], s') /\
+      length outs = length hist /\ ~ In RPanic outs /\
+      wlog s' = map WPong (pings_of seen) ++ [WCloseTooBig] /\
+      pending (br s') = wire_payload fj ++ encode_frames rj ++ extra /\
+      rerror s' = Some RReadLimit /\ closesent s' = true /\ outoffuel s' = false /\
+      (forall ops, exists rs s'', run_ops inflate c s' ops = (rs, s'') /\
+                                  frozen s' s'' /\ Forall is_failure rs).
+Proof. exact read_messages_over_limit_any_history. Qed.
+Print Assumptions C06_run_over_limit_any_history.
